@@ -54,6 +54,10 @@ Definition py_index {A} (l : list A) (i : Z) : result A :=
   if j <? 0 then Raise IndexError 0
   else match nth_error l (Z.to_nat j) with Some v => Ret v | None => Raise IndexError 0 end.
 
+(* first, *rest = l : raises ValueError ("not enough values to unpack") on an empty l *)
+Definition py_uncons {A} (l : list A) : result (A * list A) :=
+  match l with [] => Raise ValueError 0 | x :: r => Ret (x, r) end.
+
 (* l[a:] : slices never raise; a negative lower bound counts from the end, both ends are clipped *)
 Definition py_slice_from {A} (l : list A) (a : Z) : list A :=
   let j := if a <? 0 then Z.max 0 (a + py_len l) else a in skipn (Z.to_nat j) l.
@@ -133,6 +137,17 @@ Definition pq_heapify (h : list (Z * Z)) : list (Z * Z) := h.
 Definition pq_push (h : list (Z * Z)) (x : Z * Z) : list (Z * Z) := x :: h.
 Definition pq_pop (h : list (Z * Z)) : result ((Z * Z) * list (Z * Z)) :=
   match pq_pop_min h with Some r => Ret r | None => Raise IndexError 0 end.
+(* h[0] of a heap: its least element (the heap invariant), IndexError if empty;
+   heapq.heapreplace(h, x): pop the least element, then push x (IndexError if empty) *)
+Definition pq_peek (h : list (Z * Z)) : result (Z * Z) :=
+  match pq_pop_min h with Some (m, _) => Ret m | None => Raise IndexError 0 end.
+Definition pq_replace (h : list (Z * Z)) (x : Z * Z) : result (list (Z * Z)) :=
+  match pq_pop_min h with Some (_, r) => Ret (x :: r) | None => Raise IndexError 0 end.
+
+(* sorted(idx, key=l.__getitem__, reverse=True): the keys l[i] are computed first, left to right (IndexError if out of range),
+   then the indices are sorted by key, descending and stable *)
+Definition py_sorted_desc_getitem (l : list Z) (idx : list Z) : result (list Z) :=
+  bind (py_mapM (fun i => bind (py_index l i) (fun k => Ret (i, k))) idx) (fun ps => Ret (map fst (py_sorted_desc_snd ps))).
 
 (* ---- itertools (iterators are consumed once by the callers; as values they are the lists of what they yield) -- *)
 (* compress(data, selectors): stops at the shorter argument *)
